@@ -44,6 +44,14 @@ theorem C05_reject_iff_down (E : BlockCipher) (lp : LinkParams) (q : PHY) (h : F
       ok (q.mic == Spec.micDown E (lp.ver != 0) lp.conf lp.sKey h.devAddr h.fCnt h.fCtrl.ack (mhdrEnc q.mtype q.major :: b)) := by
   rw [CryptoSpec.down_spec E lp.ver lp.conf lp.sKey q h fPort frm b hp hb]; rfl
 
+/-- The direction is a parameter of the receiver too: taking a frame for the opposite direction is validating it with the other
+function, to which `C05_reject_iff_up` / `C05_reject_iff_down` apply whatever the MType says (their `Spec.micUp` / `Spec.micDown`
+carry the direction byte 0 / 1 of the validating side); with the frame's own direction it is the receiver of `C05_exchange`. -/
+theorem C05_receiver_own_direction (E : BlockCipher) (reg : Registry) (lp : LinkParams) (ek ak : Bytes) (hi : BitVec 32) (bs : Bytes) :
+    receiverDir false E reg lp ek ak hi bs = receiver E reg lp ek ak hi bs := by
+  unfold receiverDir receiver
+  simp
+
 /-- Encryption round trip inside the pipeline: what the receiver's `EncryptFRMPayload` call undoes is what the sender's did -/
 theorem C05_frm_recovered (E : BlockCipher) (hE : E.Lawful) (key : Bytes) (up : Bool) (addr fcnt : BitVec 32) (data : Bytes) :
     encryptFRMPayload E key up addr fcnt (encryptFRMPayload E key up addr fcnt data) = data := by
